@@ -3243,6 +3243,8 @@ def _keys_to_items(source: str) -> Iterable[Tuple[ast.AST, ast.AST]]:
 
         node_target_name = f"{core.unparse(value)}_{core.unparse(target)}"
         node_target_name = re.sub("[^a-zA-Z]", "_", node_target_name)
+        if any(core.walk(root, (ast.Name(id=node_target_name), ast.arg(arg=node_target_name)))):
+            continue  # The new loop variable would shadow an existing variable
         yield (
             node.generators[0].iter,
             ast.Call(func=ast.Attribute(value=value, attr="items"), args=[], keywords=[]),
@@ -3322,6 +3324,8 @@ def _for_keys_to_items(source: str) -> Iterable[Tuple[ast.AST, ast.AST]]:
 
         node_target_name = f"{core.unparse(value)}_{core.unparse(target)}"
         node_target_name = re.sub("[^a-zA-Z]", "_", node_target_name)
+        if any(core.walk(root, (ast.Name(id=node_target_name), ast.arg(arg=node_target_name)))):
+            continue  # The new loop variable would shadow an existing variable
         yield (
             node.iter,
             ast.Call(func=ast.Attribute(value=value, attr="items"), args=[], keywords=[]),
